@@ -294,7 +294,7 @@ Qed.
 (* the hypotheses of busy_not_closed are satisfiable: a request is executing
    while the clock runs far past channel_timeout and maintenance runs *)
 Example busy_example :
-  let p := mkParams 100 5 2 1 0 65536 in
+  let p := mkParams 100 5 2 1 0 65536 16777216 in
   let s := run p (init 1 1000 1000) [EConnect 0; EPoll; ESend 1000 (TComplete false); EPoll; EAdvance 100000; EPoll; EPoll] in
   map (fun c => (c_fd c, c_requests c, c_wc c)) (st_chans s) = [(1000, [false], false)].
 Proof. vm_compute. reflexivity. Qed.
